@@ -127,6 +127,8 @@ func (w *Reconciler) SyncOne(ctx context.Context, namespace, name string, _ int)
 func (w *Reconciler) sync(
 	ctx context.Context, rj *execution.Job, cfg *configv1alpha1.JobExecutionConfig, trace *utiltrace.Trace,
 ) (*execution.Job, error) {
+	cachedRj := rj
+
 	// Main logic: Perform task creation/adoption and reconciliation. If Job is not
 	// started or is being deleted, this is a no-op.
 	if jobutil.IsStarted(rj) && !isDeleted(rj) {
@@ -147,9 +149,15 @@ func (w *Reconciler) sync(
 	}
 	rj = updatedRj
 
-	// Clean up Job if it is finished and beyond its TTL.
-	if err := w.handleTTLAfterFinished(ctx, rj, cfg); err != nil {
-		return rj, errors.Wrapf(err, "could not handle TTLAfterFinished")
+	// Clean up Job if it is finished and beyond its TTL. Only do so once the
+	// finished condition was already persisted (i.e. it is present in the cached
+	// Job): deleting the Job first makes the subsequent status update conflict, and
+	// once the Job is being deleted its tasks are no longer synced, so its final
+	// status could otherwise be derived from outdated task statuses.
+	if cachedRj.Status.Condition.Finished != nil {
+		if err := w.handleTTLAfterFinished(ctx, rj, cfg); err != nil {
+			return rj, errors.Wrapf(err, "could not handle TTLAfterFinished")
+		}
 	}
 	trace.Step("Handle TTLAfterFinished done")
 
